@@ -68,6 +68,7 @@ func (v *Verifier) scanBoxed(body ast.Node, info *types.Info) {
 		}
 	}
 	assigns := map[*types.Var][]ast.Expr{}
+	defs := map[*types.Var][]ast.Expr{} // every value ever given to the variable, including its definition
 	ast.Inspect(body, func(n ast.Node) bool {
 		switch x := n.(type) {
 		case *ast.UnaryExpr:
@@ -103,6 +104,7 @@ func (v *Verifier) scanBoxed(body ast.Node, info *types.Info) {
 				for i, l := range x.Lhs {
 					if id, ok := l.(*ast.Ident); ok {
 						if o, ok := info.ObjectOf(id).(*types.Var); ok {
+							defs[o] = append(defs[o], x.Rhs[i])
 							if x.Tok == token.DEFINE && info.Defs[id] != nil {
 								continue
 							}
@@ -113,8 +115,11 @@ func (v *Verifier) scanBoxed(body ast.Node, info *types.Info) {
 			} else {
 				for _, l := range x.Lhs {
 					if id, ok := l.(*ast.Ident); ok {
-						if o, ok := info.ObjectOf(id).(*types.Var); ok && !(x.Tok == token.DEFINE && info.Defs[id] != nil) {
-							assigns[o] = append(assigns[o], nil)
+						if o, ok := info.ObjectOf(id).(*types.Var); ok {
+							defs[o] = append(defs[o], nil)
+							if !(x.Tok == token.DEFINE && info.Defs[id] != nil) {
+								assigns[o] = append(assigns[o], nil)
+							}
 						}
 					}
 				}
@@ -137,6 +142,42 @@ func (v *Verifier) scanBoxed(body ast.Node, info *types.Info) {
 			}
 		}
 		v.reslicedOnly[o] = only
+	}
+	// sliceRoot: o only ever holds sub-slices of one other slice variable (or of itself)
+	for o, rhss := range defs {
+		if _, isSl := o.Type().Underlying().(*types.Slice); !isSl {
+			continue
+		}
+		var root *types.Var
+		ok := true
+		for _, r := range rhss {
+			se, isSlice := r.(*ast.SliceExpr)
+			if !isSlice {
+				ok = false
+				break
+			}
+			id, isId := ast.Unparen(se.X).(*ast.Ident)
+			if !isId {
+				ok = false
+				break
+			}
+			ro, isVar := info.ObjectOf(id).(*types.Var)
+			if !isVar {
+				ok = false
+				break
+			}
+			if ro == o {
+				continue
+			}
+			if root != nil && root != ro {
+				ok = false
+				break
+			}
+			root = ro
+		}
+		if ok && root != nil {
+			v.sliceRoot[o] = root
+		}
 	}
 }
 
@@ -194,7 +235,7 @@ func newVerifier(e *Engine, p *packages.Package, fc *FuncContract) *Verifier {
 		counter: map[string]int{}, trusted: map[string]bool{}, unspec: map[string]bool{}, inlined: map[string]bool{}, assumed: map[string]bool{},
 		windows: map[string]*winInfo{}, lits: map[int]litInfo{}, heapSorts: map[string]string{}, scanned: map[ast.Node]bool{},
 		reslicedOnly: map[*types.Var]bool{}, globalsWritten: map[string]bool{}, pendingHavoc: map[string]bool{}, specUsed: map[string]bool{},
-		lemmasUsed: map[string]bool{}, normDone: map[string]bool{}, pathCap: 2000, refRank: map[string]int{}, allocRank: map[string]int{}, axiomSet: map[*Term]bool{}}
+		lemmasUsed: map[string]bool{}, normDone: map[string]bool{}, pathCap: 2000, refRank: map[string]int{}, allocRank: map[string]int{}, axiomSet: map[*Term]bool{}, heapAxDone: map[string]bool{}, sliceRoot: map[*types.Var]*types.Var{}, heapAxOf: map[string]*Term{}}
 	if fc != nil && fc.Mode != "" {
 		v.mode = fc.Mode
 	}
@@ -297,6 +338,7 @@ func (v *Verifier) runCase(p *packages.Package, fc *FuncContract, decl *ast.Func
 
 	s := &State{vars: map[types.Object]*Term{}, heaps: map[string]*Term{}, ghost: map[string]*Term{}, locks: map[string]bool{}}
 	s.alloc = Const("alloc@0", SInt)
+	s.rewrite = v.reindexTerm
 	v.allocRank[s.alloc.String()] = 0
 	s.assume(Ge(s.alloc, IntLit(1)))
 	v.entry = &State{vars: map[types.Object]*Term{}, heaps: map[string]*Term{}, alloc: s.alloc, ghost: map[string]*Term{}, locks: map[string]bool{}}
@@ -591,7 +633,7 @@ func (v *Verifier) checkFrame(st *State, env *CEnv, pos token.Pos) {
 						for i := 0; i < stt.NumFields(); i++ {
 							if stt.Field(i).Name() == a.Name {
 								if at, isArr := stt.Field(i).Type().Underlying().(*types.Array); isArr {
-									name := v.sliceHeapName(v.sortOf(at.Elem()))
+									name := v.sliceHeapNameT(at.Elem())
 									sliceRegions[name] = append(sliceRegions[name], region{fieldBase(base.T, i), IntLit(0), IntLit(at.Len())})
 								} else {
 									name := v.heapName("F", structTypeName(stT), a.Name)
@@ -606,17 +648,17 @@ func (v *Verifier) checkFrame(st *State, env *CEnv, pos token.Pos) {
 			x := e.tr(a)
 			switch u := x.Ty.Underlying().(type) {
 			case *types.Slice:
-				name := v.sliceHeapName(v.sortOf(u.Elem()))
+				name := v.sliceHeapNameT(u.Elem())
 				sliceRegions[name] = append(sliceRegions[name], region{SBase(x.T), SOff(x.T), Add(SOff(x.T), SLen(x.T))})
 			case *types.Pointer:
 				switch pu := u.Elem().Underlying().(type) {
 				case *types.Array:
-					name := v.sliceHeapName(v.sortOf(pu.Elem()))
+					name := v.sliceHeapNameT(pu.Elem())
 					sliceRegions[name] = append(sliceRegions[name], region{x.T, IntLit(0), IntLit(pu.Len())})
 				case *types.Struct:
 					for i := 0; i < pu.NumFields(); i++ {
 						if at, isArr := pu.Field(i).Type().Underlying().(*types.Array); isArr {
-							name := v.sliceHeapName(v.sortOf(at.Elem()))
+							name := v.sliceHeapNameT(at.Elem())
 							sliceRegions[name] = append(sliceRegions[name], region{fieldBase(x.T, i), IntLit(0), IntLit(at.Len())})
 						} else {
 							name := v.heapName("F", structTypeName(u.Elem()), pu.Field(i).Name())
